@@ -166,7 +166,7 @@ func Check(c Case, ev *evid.Collector, cobra CobraFn) (*evid.Violation, *Infra) 
 	}
 	expectProbe := false
 	for si, sc := range c.Scripts {
-		if sc.Kind == "" && len(sc.Stmts) > 0 && !obs.Scripts[si].TimedOut() && !obs.Scripts[si].Cancelled() {
+		if sc.Kind == "" && sc.Timeout != "1ms" && !obs.Scripts[si].TimedOut() && !obs.Scripts[si].Cancelled() && !obs.Cancelled {
 			expectProbe = true
 		}
 	}
